@@ -73,6 +73,23 @@ Theorem pipe_panic_wedges : forall (A B : Type) (f : A -> B) (d a b : A),
 Proof. exact pipe_panic_wedges_l. Qed.
 Print Assumptions pipe_panic_wedges.
 
+(** What an accepting verdict of the event walk inside [check_C09] means for an observed trace
+    (events = (actor, code, idx, pulled); code 10/14 = the consumer received, 11 = it dropped, 1 = an
+    actor pulled an item, 5 = Buffered producer went on after a failed send, 13 = anomaly):
+    before the drop every observed pulled count is within [B] of the number of items consumed so far;
+    after the drop at most [E] more items are pulled in total, nothing is received, no actor pulls
+    twice, and a Buffered producer never ignores the failed send. check_C09 uses B = 2W, E = W for
+    Pipe and B = cap + 1, E = 1 for Buffered. *)
+Theorem walk_sound : forall bf B E evs, walk bf B E evs 0 None [] = true ->
+  (forall pre e post, evs = pre ++ e :: post -> (forall x, In x pre -> e_code x <> 11) ->
+     e_pulled e <= count_recv (pre ++ [e]) + B /\ e_code e <> 13)
+  /\ (forall pre d post, evs = pre ++ d :: post -> (forall x, In x pre -> e_code x <> 11) -> e_code d = 11 ->
+        (forall e, In e post -> e_pulled e <= e_pulled d + E /\ e_code e <> 13 /\ is_recv e = false
+                                /\ (bf = true -> e_code e <> 5))
+        /\ NoDup (map e_actor (filter is_got post))).
+Proof. exact walk_sound_l. Qed.
+Print Assumptions walk_sound.
+
 (** Non-vacuity: the 2W bound is attained (W = 1: two tickets ahead with nothing consumed). *)
 Example lookahead_tight :
   exists s, run Z Z fZ 0%Z (init Z Z [1; 2; 3]%Z 1) [Pull 0; Compute 0; TurnOk 0; SendOk 0; Advance 0; Pull 0] = Some s
